@@ -16,7 +16,7 @@
 (* model-checking configurations MC_x and the trace-validation specs     *)
 (* Trace_x evaluate exactly these operators.                             *)
 (***************************************************************************)
-EXTENDS Integers, Sequences, FiniteSets
+EXTENDS Integers, Sequences, FiniteSets, TLC
 
 Range(s) == { s[i] : i \in DOMAIN s }
 
@@ -108,6 +108,16 @@ Partners(T, e) == IF e.corr < 0 THEN {}
 HostEvents(T) == { e \in T : Host(e) }
 DevEvents(T)  == { e \in T : Dev(e) }
 
+\* profiler-step annotations are named "ProfilerStep#<n>"; generated traces use n < 128
+StepNameOf(n) == "ProfilerStep#" \o ToString(n)
+StepNumbers == 0..127
+AllStepNames == { StepNameOf(n) : n \in StepNumbers }
+IsStepName(name) == name \in AllStepNames
+\* the loader trims device activities only when the file has at least two distinct profiler steps; otherwise every complete entry of
+\* the file must be a row of the loaded frame
+NoTrim(file) == Cardinality({ f.name : f \in { g \in file : IsStepName(g.name) } }) < 2
+RowsComplete(T, file) == NoTrim(file) => { f.id : f \in file } \subseteq { x.id : x \in T }
+
 \* the link of e: the id of its partner, 0 when the partner is absent, -1 without a correlation id
 LinkOf(R, e) == IF e.corr < 0 THEN -1
                 ELSE LET P == Partners(R, e)
@@ -120,7 +130,8 @@ LinksFaithful(T, file) == \A x \in T : \E f \in file : f.id = x.id /\ x.link = L
 
 \* the part of well-formedness that survives trimming: what holds of the rows of a loaded frame
 \* every loaded row still says what the file entry at the position named by its id said
-RowsFaithful(T, file) == \A x \in T : \E f \in file : f.id = x.id /\ f.name = x.name /\ f.cat = x.cat /\ f.stream = x.stream
+RowsFaithful(T, file) == /\ \A x \in T : \E f \in file : f.id = x.id /\ f.name = x.name /\ f.cat = x.cat /\ f.stream = x.stream
+                         /\ RowsComplete(T, file)
 
 WellFormedRows(T) ==
     /\ \A a, b \in HostEvents(T) : SameThread(a, b) =>
